@@ -142,6 +142,8 @@ class C02(Prop):
         return cases + reused
 
     def run_impl(self, case):
+        if case["kind"] == "concurrent-writers":
+            return self._concurrent_run(case["cases"])
         try:
             pre = case.get("pre")
             if pre is not None:
@@ -176,6 +178,8 @@ class C02(Prop):
             return {"error": type(e).__name__}
 
     def model_many(self, cases):
+        if cases and all(c["kind"] == "concurrent-writers" for c in cases):
+            return [{"whole_frames": True} for _ in cases]
         env = [c for c in cases if "f" in c]
         rq = [c for c in cases if "f" not in c]
         r_env = model.call_many("frame_bytes", [c["f"] for c in env])
@@ -188,9 +192,13 @@ class C02(Prop):
         return out
 
     def obs(self, case, b):
+        if case["kind"] == "concurrent-writers":
+            return {"whole_frames": b.get("whole_frames")}
         return b if "bytes" in b else {"error": True}
 
     def spec_many(self, cases, behaviours):
+        if cases and all(c["kind"] == "concurrent-writers" for c in cases):
+            return [bool(b.get("whole_frames")) for b in behaviours]
         env = [(c, b) for c, b in zip(cases, behaviours) if "f" in c]
         rq = [(c, b) for c, b in zip(cases, behaviours) if "f" not in c]
         r_env = model.call_many("P02_env", [[c["f"], bytes(b.get("bytes", []))] for c, b in env])
@@ -207,6 +215,50 @@ class C02(Prop):
             else:
                 out.append(bool(r) and b.get("via_writer_equal", False))
         return out
+
+    def _concurrent_run(self, chosen):
+        import itertools
+        from pyplumio.stream import FrameWriter
+
+        class SlowWriter(FakeWriter):
+            async def drain(self):
+                for _ in range(3):
+                    await asyncio.sleep(0)
+
+        async def run(frames):
+            w = SlowWriter()
+            fw = FrameWriter(w)
+            res = await asyncio.gather(*(fw.write(f) for f in frames), return_exceptions=True)
+            return bytes(w.data), [type(r).__name__ for r in res if isinstance(r, Exception)]
+        frames = [FI.make_frame(*c["f"]) if c["kind"] == "envelope" else
+                  build_request(c["req"], c["rcpt"], c["sender"], c["etype"], c["ever"]) for c in chosen]
+        wanted = [f.bytes for f in frames]
+        data, errs = vloop.run(run, frames)
+        ok = not errs and any(b"".join(p) == data for p in itertools.permutations(wanted))
+        return {"whole_frames": ok, "wire": data.hex(), "frames": [w.hex() for w in wanted], "errors": errs}
+
+    def extra_checks(self, tier, rng):
+        """Transmission: frames handed to one FrameWriter by several tasks while the transport exerts back-pressure (drain()
+        suspends) must appear on the wire as whole frames, one after the other, in some order."""
+        fails = []
+        self._concurrent = 0
+        pool = [c for c in self.generate(rng, "quick") if c["kind"].startswith("request:") or c["kind"] == "envelope"]
+        long_ones = [c for c in pool if c["kind"] == "request:7" or (c["kind"] == "envelope" and len(c["f"][5]) > 40)]
+        for _ in range(40 if tier == "quick" else 600):
+            chosen = [rng.choice(long_ones)] + [rng.choice(pool) for _ in range(rng.choice([1, 2]))]
+            rng.shuffle(chosen)
+            try:
+                r = self._concurrent_run(chosen)
+            except Exception:  # noqa: BLE001
+                continue
+            self._concurrent += 1
+            if not r["whole_frames"]:
+                fails.append({"case": {"kind": "concurrent-writers", "cases": [{k: v for k, v in c.items()} for c in chosen]},
+                              "impl": r, "reason": "frames written concurrently under back-pressure are not whole on the wire"})
+        return fails
+
+    def extra_coverage(self):
+        return {"concurrent_writer_histories": getattr(self, "_concurrent", 0)}
 
     def nontrivial_key(self, case, mb):
         return repr(case) if "bytes" in mb else None
